@@ -119,3 +119,11 @@ Example GF256_ok : tables_ok 2 8 285 2 (mk_tables 2 8 285 2) = true.    Proof. v
 Example GF9_X_not_primitive_rejected : tables_ok 3 2 10 3 (mk_tables 3 2 10 3) = false.  Proof. vm_compute. reflexivity. Qed.
 Example GF9_reducible_modulus_rejected : tables_ok 3 2 11 4 (mk_tables 3 2 11 4) = false. Proof. vm_compute. reflexivity. Qed.
 Example GF7_nonprimitive_rejected : tables_ok 7 1 7 2 (mk_tables 7 1 7 2) = false. Proof. vm_compute. reflexivity. Qed.
+
+(* fg_ok (irreducibility / primitivity by the verified checkers) on the same fields *)
+Example GF9_fg_ok   : fg_ok 3 2 14 3 = true.    Proof. vm_compute. reflexivity. Qed.
+Example GF256_fg_ok : fg_ok 2 8 285 2 = true.   Proof. vm_compute. reflexivity. Qed.
+Example GF7_fg_ok   : fg_ok 7 1 7 3 = true.     Proof. vm_compute. reflexivity. Qed.
+Example GF9_reducible_fg_rejected : fg_ok 3 2 11 4 = false.   Proof. vm_compute. reflexivity. Qed.
+Example GF9_X_not_primitive_fg_rejected : fg_ok 3 2 10 3 = false.   Proof. vm_compute. reflexivity. Qed.
+Example GF4_composite_p_rejected : fg_ok 4 1 4 3 = false.   Proof. vm_compute. reflexivity. Qed.
